@@ -168,15 +168,17 @@ func (s *BaseSeeder) readerLoop() {
 
 			// prune oldest session
 			sessions := s.peerSessions[op.peer.ID]
-			if len(sessions) > 2 {
-				oldest := sessions[0]
-				sessions = sessions[1:]
-				delete(s.sessions, sessionIDAndPeer{oldest, op.peer.ID})
-			}
 
 			// add session
 			session, ok := s.sessions[sessionIDAndPeer{op.request.Session.ID, op.peer.ID}]
 			if !ok {
+				// a new session: forget the oldest one if the peer already holds three
+				// (a request that resumes a held session must not evict anything)
+				if len(sessions) > 2 {
+					oldest := sessions[0]
+					sessions = sessions[1:]
+					delete(s.sessions, sessionIDAndPeer{oldest, op.peer.ID})
+				}
 				session.origSelector = op.request.Session.Start
 				session.next = op.request.Session.Start
 				session.stop = op.request.Session.Stop
